@@ -30,6 +30,7 @@ class UseSetLiteral(SimpleCodemod, NameResolutionMixin):
                             if len(elements) == 0:
                                 return updated_node.with_changes(args=[])
 
-                            return cst.Set(elements=elements)
+                            # the elements as rewritten so far (a nested set([...]))
+                            return cst.Set(elements=updated_node.args[0].value.elements)
 
         return updated_node
